@@ -23,10 +23,17 @@ static std::string g_name_chars(Tape &t, int maxLen, const char *forbidden) {
 static std::string g_filename(Tape &t, int kind) {
   std::string s;
   int nseg = t.range(0, 4);
-  if (t.chance(1, 64)) nseg = t.range(250, 300);  // counters of separators that are narrower than int
+  bool deep = t.chance(1, 64);
+  if (deep) nseg = t.range(250, 300);  // counters of separators that are narrower than int
+  // in a deep name only the segments around the 8-bit wrap and the last one are generated, the rest is a plain "d"
+  // (the choice tape is finite: 300 generated segments would leave the late ones empty)
+  auto segment = [&](int i, const char *forbidden) -> std::string {
+    if (deep && !(i >= 250 && i <= 262) && i != nseg && i > 1) return "d";
+    return g_name_chars(t, 5, forbidden);
+  };
   if (kind <= 1) {
     std::vector<std::string> segs;
-    for (int i = 0; i <= nseg; i++) segs.push_back(g_name_chars(t, 5, "/"));
+    for (int i = 0; i <= nseg; i++) segs.push_back(segment(i, "/"));
     std::string body;
     for (size_t i = 0; i < segs.size(); i++) { if (i) body += '/'; body += segs[i]; }
     if (kind == 0) return "/" + body;
@@ -34,7 +41,7 @@ static std::string g_filename(Tape &t, int kind) {
     return body;
   }
   std::vector<std::string> segs;
-  for (int i = 0; i <= nseg; i++) segs.push_back(g_name_chars(t, 5, "/\\"));
+  for (int i = 0; i <= nseg; i++) segs.push_back(segment(i, "/\\"));
   if (kind == 2) {
     s = std::string(1, "CcAzZx"[t.below(6)]) + ":";
     if (t.chance(1, 6)) return s;  // bare "X:"
